@@ -13,12 +13,22 @@ import asyncio
 import asyncio.events as aio_events
 import itertools
 import os
+import time
 
 import common
 from c18 import DetLoop
 
 # 1 = model of the repaired close() (fixes/C17-close-send-failure.patch)
 MODEL_FIXED = int(os.environ.get('VERIF_C17_MODEL_FIXED', '1'))
+
+# quick tier: no new batch of sessions is started once this many seconds have passed since the
+# check began (build included); what was cut is recorded in the evidence
+QUICK_DEADLINE = float(os.environ.get('VERIF_QUICK_DEADLINE', '60'))
+
+
+def over_deadline(ctx):
+    return ctx.tier == 'quick' and time.time() - ctx.t0 > QUICK_DEADLINE
+
 
 VERSIONS = {'2.0': (0, 0), '2.1': (1, 0), '2.2': (1, 0), '2.3': (1, 1), '2.4': (1, 1)}
 
@@ -573,29 +583,47 @@ def main(ctx):
     any_found = False
     corr_all = []
 
-    def batch(cases, tag):
+    def batch(cases, tag, cut=True):
         nonlocal any_found
-        for i in range(0, len(cases), 4000):
-            part = cases[i:i + 4000]
+        done = 0
+        for i in range(0, len(cases), 1000):
+            if cut and over_deadline(ctx):
+                break
+            part = cases[i:i + 1000]
             reals = [run_real(falcon, c) for c in part]
             n, corr = judge(ctx, model, part, reals, tag)
             any_found |= n > 0
             corr_all.extend(corr)
+            done += len(part)
+        return done
 
     cor = [tuple(o['case']) for o in common.corpus('C17') if 'case' in o]
     if cor:
-        batch([(tuple(c[0]),) + tuple(c[1:]) for c in cor], 'corpus')
+        batch([(tuple(c[0]),) + tuple(c[1:]) for c in cor], 'corpus', cut=False)
     quick = ctx.tier == 'quick'
     ex = small_cases(2 if quick else 3, not quick)
     if quick:
         ex = ctx.rng.sample(ex, min(len(ex), 6000))
     else:
         ctx.cov['exhaustive'] = False
-    ctx.cov['small_scripts'] = len(ex)
-    batch(ex, 'small')
+    # interleave so that a deadline cut keeps both kinds
     n = 12000 if quick else 120000
     cases = [gen_case(ctx.rng) for _ in range(n)]
-    batch(cases, 'rnd')
+    d_small = batch(ex[:1000], 'small', cut=False)
+    d_rnd = batch(cases[:2000], 'rnd', cut=False)
+    # alternate so that a cut keeps both kinds in proportion
+    i = j = 0
+    rest_s, rest_r = ex[1000:], cases[2000:]
+    while (i < len(rest_s) or j < len(rest_r)) and not over_deadline(ctx):
+        if i < len(rest_s):
+            d_small += batch(rest_s[i:i + 1000], 'small')
+            i += 1000
+        if j < len(rest_r):
+            d_rnd += batch(rest_r[j:j + 2000], 'rnd')
+            j += 2000
+    ctx.cov['small_scripts'] = {'planned': len(ex), 'run': d_small}
+    ctx.cov['random_sessions'] = {'planned': n, 'run': d_rnd,
+                                  'cut_by_deadline_s': QUICK_DEADLINE if (d_rnd < n or d_small < len(ex)) else None}
     ctx.sample({'case': [list(cases[0][0])] + list(cases[0][1:])})
     report_corr(ctx, corr_all, any_found)
 
